@@ -316,10 +316,20 @@ func (n *Node) Advance(d time.Duration) {
 		d -= step
 		synctest.Wait()
 		n.mu.Lock()
-		cl := append([]*Client(nil), n.clients...)
+		live := n.clients[:0]
+		for _, c := range n.clients {
+			c.mu.Lock()
+			dead := c.gone || c.closed
+			c.mu.Unlock()
+			if !dead {
+				live = append(live, c)
+			}
+		}
+		n.clients = live
+		cl := append([]*Client(nil), live...)
 		n.mu.Unlock()
 		for _, c := range cl {
-			if c.AutoHeartbeat && c.opened && !c.Closed() {
+			if c.AutoHeartbeat && c.opened {
 				c.Heartbeat()
 			}
 		}
